@@ -19,6 +19,7 @@ from typing import Any, Literal, Type
 from ._internal_utils import application_id_look_up
 from .base import DiameterMessage
 from .config import *
+from .exceptions import ProcessRequestException
 from .process import BaseMessageProcessor
 from .utils import is_client_mode
 from .utils import is_server_mode
@@ -413,7 +414,16 @@ class Open(State):
     def event_open_rcv_message(self) -> None:
         open_logger.debug("Event has been triggered.")
 
-        self.processor.check_message(self.msg)
+        try:
+            self.processor.check_message(self.msg)
+
+        except ProcessRequestException:
+            #: A request addressed to another host/realm is not for local 
+            #: consumption: it is dropped, the connection stays up.
+            open_logger.exception("Request does not comply with local "\
+                                  "consumption rules. It has been dropped.")
+            self.set_open_state()
+            return
 
         make_logging(self.msg)
 
